@@ -24,7 +24,7 @@ def menu(nm):
 
 
 def mk(name, sessions_spec, nm=1, index=False, extra=False, small_chunks=False, shock=False, vol=False, programs=None,
-       choice_steps=None, two_indices=False):
+       choice_steps=None, two_indices=False, nested=False):
     markets = []
     for i in range(nm):
         d = dict(name="M%d" % i, shares=i + 1, drift=(2.0 ** -7 if i == 1 else 0.0))
@@ -34,6 +34,12 @@ def mk(name, sessions_spec, nm=1, index=False, extra=False, small_chunks=False, 
     if two_indices:
         # a second index market sharing a component with the first
         markets.append(dict(name="IDX2", cls="ProbeIndexMarket", components=["M1", "M2"]))
+    if nested:
+        # the index market is itself a component of a second index market (and that one of a third): "index markets after
+        # their components" then also orders the index markets among themselves
+        markets[-1].update(shares=4, price=110.0)
+        markets.append(dict(name="J", cls="ProbeIndexMarket", components=["IDX", "M1"], shares=2, price=105.0))
+        markets.append(dict(name="K", cls="ProbeIndexMarket", components=["J", "M0"]))
     if extra:
         markets.append(dict(name="X", shares=3))
     mn = menu(nm)
@@ -87,6 +93,7 @@ def scenarios(tier):
     sc["three_markets_vol"] = mk("three_markets_vol", [(2, True, True), (3, True, True)], nm=3, index=True, shock=True, vol=True)
     sc["two_indices_sharing_a_component"] = mk("two_indices_sharing_a_component", [(2, True, False), (3, True, True)], nm=3, index=True,
                                                  two_indices=True, shock=True)
+    sc["index_of_index_of_index"] = mk("index_of_index_of_index", [(2, True, False), (3, True, True)], nm=2, index=True, nested=True, extra=True, shock=True)
     sc["chunk3:a"] = mk("chunk3:a", [(4, True, True), (4, True, False), (4, True, True)], nm=2, index=True, extra=True, small_chunks=True,
                         shock=True, vol=True, programs=([1, 3, 1, 5, 0, 1], [2, 4, 2, 2, 0, 2]))
     sc["chunk3:b"] = mk("chunk3:b", [(7, True, True)], nm=1, small_chunks=True, programs=([1, 0, 3, 1], [2, 0, 0, 4]))
